@@ -123,6 +123,9 @@ def U_OPS() -> Dict[str, Callable]:
             np.vstack([S.subs, S.subs[[_imin(S)]]]), np.vstack([S.vals, -S.vals[[_imin(S)]]]), S.shape) if S.nnz else
             ttb.sptensor.from_aggregator(np.empty((0, a["N"]), dtype=int), np.empty((0, 1)), S.shape),
         "sptenmat_ctor": lambda S, a: _sptenmat_ctor(S, a),
+        "sptenmat_setitem_new": lambda S, a: _sptenmat_setitem_new(S, a),
+        # the repeated pair cancels exactly: the sum is zero and is not an entry
+        "sptenmat_ctor_cancel": lambda S, a: _sptenmat_ctor(S, dict(a, _cancel=True)),
         # mask() lists the values in the order of the MASK's subscripts: the mask is kept fixed
         "mask_fixed": lambda S, a: S.mask(ttb.sptensor(a["allsubs"][::2][::-1].copy(),
                                                        np.ones((len(a["allsubs"][::2]), 1)), S.shape)),
@@ -178,6 +181,26 @@ def _imin(S) -> int:
     return int(np.argmin(S.vals.reshape(-1)))
 
 
+def _sptenmat_setitem_new(S, a):
+    """an sptenmat holding its entries in the operand's stored order (copy=False), then one assignment that adds entries"""
+    import bind
+    ttb = bind.ttb
+    M0 = S.to_sptenmat(np.array([0]))
+    if S.nnz == 0:
+        return M0.full().data
+    r = S.subs[:, 0].copy()
+    rest = [d for d in range(S.ndims) if d != 0]
+    c = (np.ravel_multi_index(tuple(S.subs[:, d] for d in rest), tuple(S.shape[d] for d in rest), order="F")
+         if rest else np.zeros(S.nnz, dtype=int))
+    M = ttb.sptenmat(np.stack([r, c], axis=1), S.vals.astype(float).copy(), M0.rdims, M0.cdims, M0.tshape, copy=False)
+    nr, nc = M0.shape
+    stored = {(int(i), int(j)) for i, j in zip(r, c)}
+    free = [(i, j) for j in range(nc) for i in range(nr) if (i, j) not in stored]
+    for k, (i, j) in enumerate(free[:2]):
+        M[i, j] = 7.0 + k
+    return M.full().data
+
+
 def _sptenmat_ctor(S, a):
     import bind
     ttb = bind.ttb
@@ -191,7 +214,7 @@ def _sptenmat_ctor(S, a):
          if rest else np.zeros(S.nnz, dtype=int))
     j = _imin(S)
     subs = np.vstack([np.stack([r, c], axis=1), np.stack([r[[j]], c[[j]]], axis=1)])
-    vals = np.vstack([S.vals, S.vals[[j]]])
+    vals = np.vstack([S.vals, (-1.0 if a.get("_cancel") else 1.0) * S.vals[[j]]])
     return ttb.sptenmat(subs, vals, M.rdims, M.cdims, M.tshape)
 
 
@@ -227,7 +250,7 @@ STRICT = ["add", "sub", "mul", "and", "or", "xor", "eq", "ne", "lt", "le", "gt",
           "ne_dense", "le_dense", "gt_dense", "and_dense", "mul_dense_zeros", "setitem_region", "copy",
           "permute_rev", "reshape_flat", "squeeze", "ones", "neg", "pos",
           "setitem_subs_mixed", "setitem_subs_mixed_rev", "mul_scalar_zero", "rmul_scalar_zero", "mul_ktensor_zero_row", "scale_vec_zero", "scale_dense_zero", "div",
-          "mul_scalar_underflow", "rmul_scalar_underflow"]
+          "mul_scalar_underflow", "rmul_scalar_underflow", "sptenmat_ctor_cancel"]
 
 
 def applicable(op: str, shape) -> bool:
